@@ -18,8 +18,8 @@
 (*                 and states); in particular PackRefs, GitPack and Reopen *)
 (*                 change nothing observable (PackIsInvisible);            *)
 (*   CollisionFree, ObsOK, TypeOKF, FsOK.                                  *)
-(* `Defects` re-enables, one by one, behaviours of the implementation that *)
-(* break the contract (negative controls: TLC must then find a violation). *)
+(* `Defects` re-enables, one by one, behaviours the implementation once had *)
+(* and that break the contract (negative controls: TLC must find them).    *)
 (*                                                                         *)
 (* The state graph of this module (VIEW hides `last`) is what the harness  *)
 (* replays on the real containers: an edge label carries the call, the     *)
@@ -87,33 +87,31 @@ Overlooked(c) ==
            /\ c.op = "AddIfNew" /\ PackedOnly(n) /\ Collide(tgt, n)}
 Seen(c) == IF Defects = {} THEN Eff ELSE [n \in Names |-> IF n \in Overlooked(c) THEN Absent ELSE Eff[n]]
 
-PackedAncestor(n) == \E b \in Names : packed[b].k # "absent" /\ IsStrictPrefix(b, n)
 PackedConflict(n) == \E b \in Names : packed[b].k # "absent" /\ Collide(b, n)
 
-\* Directories after a call (transcribed from refs.py; where the contract demands something the
-\* implementation does not do -- writing a name at which an empty directory was left behind --
-\* the directory tree at the name is cleared, as C git does).
+\* Directories after a call (transcribed from refs.py).  Every writer first refuses a name that
+\* collides with a packed ref (_check_packed_conflicts, before anything is created), then makes the
+\* parent directories; an empty directory tree left at the name itself is removed (_remove_empty_dirs,
+\* as C git does) -- by set_if_equals just before the rename, by the others before they take the lock.
+LooseBelow(n) == \E q \in Names : loose[q].k # "absent" /\ IsStrictPrefix(n, q)
 DirsAfter(c, res, tgt, nl) ==
     LET mk == dirs \cup Creatable(loose, tgt) IN
     CASE c.op \in {"Set", "SetIfEquals"} ->
-            \* (set_if_equals probes packed ANCESTORS before it creates directories; once it probes
-            \*  descendants too -- out/proposed_fixes/C16-2 -- this becomes PackedConflict(tgt))
-            IF res = "Refused" /\ PackedAncestor(tgt) THEN dirs            \* refused before anything is created
+            IF res = "Refused" /\ PackedConflict(tgt) THEN dirs            \* refused before anything is created
             ELSE IF res = "True" /\ Content(Eff, tgt) # c.v THEN ClearAt(mk, tgt)
             ELSE mk                                                        \* compare failed / value already there / rename refused
       [] c.op = "AddIfNew" ->
             IF res \in {"False", "SymrefLoop"} THEN dirs                   \* decided before anything is created
-            \* (a packed collision is not looked for at all -- reported; a call that is nevertheless
-            \*  refused, because add_if_new finds the symref's own name in packed-refs, has made the directories)
-            ELSE IF res = "Refused" THEN (IF PackedConflict(tgt) /\ ~(c.n # tgt /\ packed[c.n].k # "absent") THEN dirs ELSE mk)
+            ELSE IF res = "Refused" THEN (IF PackedConflict(tgt) THEN dirs ELSE mk)
             ELSE ClearAt(mk, tgt)
       [] c.op \in {"Remove", "RemoveIfEquals"} ->
             IF BlockedByFile(loose, tgt) THEN mk                           \* the lock file cannot be created
             ELSE IF c.old # AnyOld /\ Content(Eff, tgt) # c.old THEN mk    \* compare failed: nothing is cleaned up
-            ELSE IF res = "NoEffect" /\ tgt \in mk THEN mk                 \* a directory with refs below sits at the name
-            ELSE CleanUp(nl, ClearAt(mk, tgt), ParentDir(tgt), 1)
+            ELSE IF LooseBelow(tgt) THEN mk                                \* a directory with loose refs below sits at the name
+            ELSE CleanUp(nl, ClearAt(mk, tgt), ParentDir(tgt), 1)          \* (an empty directory at the name goes too)
       [] c.op = "SetSymbolic" ->
-            IF res = "Refused" THEN dirs ELSE ClearAt(mk, tgt)
+            IF res = "Refused" THEN (IF PackedConflict(tgt) THEN dirs ELSE mk)
+            ELSE ClearAt(mk, tgt)
 
 \* What one call does to the files: result, the ref really written, and the placement afterwards
 \* (a function of the current state and the call).
